@@ -366,7 +366,7 @@ func runC01(rc *RunCtx, faulty bool) *simkit.Violation {
 		}
 	}
 	if faulty {
-		w.Faults = &simkit.FaultCfg{Err: 150, Stall: 30, Budget: 4, Eligible: func(c *simkit.Call) bool { return c.Op == simkit.OpGet || c.Op == simkit.OpGetAt }}
+		w.Faults = &simkit.FaultCfg{Err: 100, Stall: 30, Reset: 100, Budget: 4, Eligible: func(c *simkit.Call) bool { return c.Op == simkit.OpGet || c.Op == simkit.OpGetAt }}
 	}
 	nReaders := t.Range(1, 3)
 	for i := 0; i < nReaders; i++ {
